@@ -16,7 +16,27 @@ def main():
     sub.add_parser("setup")
     b = sub.add_parser("baseline")
     b.add_argument("pids", nargs="*")
+    d = sub.add_parser("dump")
+    d.add_argument("pid")
+    d.add_argument("pattern")
+    d.add_argument("--out", default="/tmp/vf_dump")
     a = ap.parse_args()
+    if a.cmd == "dump":
+        import importlib
+        from vf.check import build_vcs, load_known
+
+        os.chdir(HERE)
+        prop = importlib.import_module(f"contracts.{a.pid}").P
+        vcs, info = build_vcs(prop, load_known(a.pid), print)
+        os.makedirs(a.out, exist_ok=True)
+        k = 0
+        for v in vcs:
+            if a.pattern in v.name:
+                path = os.path.join(a.out, f"{k}.smt2")
+                open(path, "w").write(v.smt2 + "\n(check-sat)\n")
+                print(path, v.name, v.hash)
+                k += 1
+        sys.exit(0)
     os.chdir(HERE)
     seed = int(os.environ.get("VERIF_SEED", "0") or 0)
     if a.cmd == "check":
